@@ -604,8 +604,36 @@ func (s *Scn) LongAnswersTx(view *simnode.Node, id *Ident) *types.Transaction {
 			_, proof = signer.Evaluate(seed[:])
 		}
 		nonce, ep := s.NextNonce(view, id)
+		answers, salt := []byte{1, 2}, []byte{2}
+		// a participant that does not run the reference client: the attachment's parts are whatever it likes (before the
+		// first validation the payload is not examined at all)
+		kind := s.T.ChooseOpt("longans.crafted", 8)
+		switch kind {
+		case 1:
+			answers = nil
+		case 2:
+			answers = bytes.Repeat([]byte{0xff}, 2000)
+		case 3:
+			answers = bytes.Repeat([]byte{0xff}, 1+s.T.Choose("longans.len", 40))
+		case 4:
+			proof = proof[:len(proof)/2]
+		case 5:
+			salt = nil
+		}
 		t := &types.Transaction{AccountNonce: nonce, Epoch: ep, Type: types.SubmitLongAnswersTx,
-			Payload: attachments.CreateLongAnswerAttachment([]byte{1, 2}, proof, []byte{2}, ecies.ImportECDSA(id.Key))}
+			Payload: attachments.CreateLongAnswerAttachment(answers, proof, salt, ecies.ImportECDSA(id.Key))}
+		switch kind {
+		case 6:
+			t.Payload = []byte{0x0a} // a field header without its length
+		case 7:
+			t.Payload = make([]byte, 1+s.T.Choose("longans.len", 60))
+			for i := range t.Payload {
+				t.Payload[i] = byte(s.T.Choose("longans.byte", 256))
+			}
+		}
+		if kind != 0 {
+			s.R.Probe(fmt.Sprintf("crafted_long_answers_%d", kind))
+		}
 		t.MaxFee = new(big.Int).Mul(fee.CalculateFee(view.App.ValidatorsCache.NetworkSize(), FeeRate(view), t), big.NewInt(2))
 		tx = s.sign(t, id)
 	})
